@@ -152,9 +152,12 @@ def run(ctx, model=None):
     for kind in (PR, P1):
         for pat in gen.all_patterns(3 if ctx.quick() else 5):
             check_case(ctx, gen.dead_shape_game(rng, kind, pat, front=rng.choice([None, P1, P2])), model)
+    for k in range(12 if ctx.quick() else 200):
+        check_case(ctx, gen.tiny_reach_game(rng), model)
     N = 300 if ctx.quick() else 8000
     for k in range(N):
-        g = gen.slow_cycle_game(rng) if k % 9 == 0 else gen.stopping_game(rng, reward_max=rng.choice([4, 7, 11]))
+        g = gen.slow_cycle_game(rng) if k % 9 == 0 else gen.layered_tie_game(rng) if k % 2 == 0 else \
+            gen.stopping_game(rng, reward_max=rng.choice([4, 7, 11]))
         check_case(ctx, g, model)
         if ctx.time_left() < 0:
             return
